@@ -1,4 +1,5 @@
 import BrushVerif.Proofs.QuoteAnsi
+import BrushVerif.Proofs.QuoteEnv
 /-!
 # C13 — shell-quoted output re-reads to the original values
 
@@ -213,5 +214,60 @@ theorem trap_p_partial (b : Bool) (v : Str) (h : '\'' ∉ v) :
     readArgs b (trapWord v) = .words [v] := by
   have := rd_sq_plain b v [] h
   simp [trapWord, readArgs, rd_un_sq, this, rd_un_nil, Res.prepend]
+
+/-! ## whole-environment listings (`declare -p`, `set`, `export -p`) over a stack of scopes
+
+`visible` mirrors `ShellEnvironment::iter_using_policy`; `lookupEnv` is the by-name lookup.  A local
+that hides a global (or a caller's local, or a temporary binding hiding a global) must be what the
+listing prints — and the hidden binding must not be printed at all. -/
+
+/-- the view the listings print holds, for every name, the innermost binding -/
+theorem listing_view_is_innermost (env : Env) (n : Str) :
+    (visible env).lookup n = lookupEnv env n := by
+  have := lookup_visibleFrom env [] n
+  simpa [visible] using this
+
+/-- … and each name once: a hidden outer binding is not listed -/
+theorem listing_one_entry_per_name (env : Env) : ((visible env).map (·.1)).Nodup :=
+  namesOnce_visibleFrom env [] (by simp [NamesOnce])
+
+/-- every entry of the view is the innermost binding of its name -/
+theorem listing_entries_are_innermost (env : Env) :
+    ∀ e ∈ visible env, lookupEnv env e.1 = some e.2 := by
+  intro e he
+  rw [← listing_view_is_innermost]
+  exact lookup_of_mem _ (listing_one_entry_per_name env) e he
+
+/-- a listing prints the line of the innermost binding of every name -/
+theorem listing_prints_innermost (line : Str → Var → Option Str) (env : Env) (n : Str) (v : Var) (t : Str)
+    (h : lookupEnv env n = some v) (ht : line n v = some t) : t ∈ listing line env := by
+  rw [← listing_view_is_innermost] at h
+  exact List.mem_filterMap.mpr ⟨(n, v), mem_of_lookup_env _ _ _ h, ht⟩
+
+/-- … and only such lines -/
+theorem listing_prints_only_innermost (line : Str → Var → Option Str) (env : Env) (t : Str)
+    (h : t ∈ listing line env) : ∃ n v, lookupEnv env n = some v ∧ line n v = some t := by
+  obtain ⟨e, he, ht⟩ := List.mem_filterMap.mp h
+  exact ⟨e.1, e.2, listing_entries_are_innermost env e he, ht⟩
+
+/-- `declare -p` (no name) line of a scalar -/
+def declLine (n : Str) (v : Var) : Option Str :=
+  match v.vals with
+  | [x] => if v.kind = 's' then some (declareP v.attrs n x) else none
+  | _ => none
+
+/-- in any scope stack, the no-name `declare -p` listing holds the line of the visible scalar, and
+the value printed in it reads back to the visible value -/
+theorem declare_listing_rereads (b : Bool) (env : Env) (n x attrs : Str)
+    (h : lookupEnv env n = some { attrs := attrs, kind := 's', vals := [x] }) (hx : noNul x = true) :
+    declareP attrs n x ∈ listing declLine env ∧ readAsg b (declValue x) = .value x :=
+  ⟨listing_prints_innermost declLine env n _ _ h (by simp [declLine]), declare_p_value_rereads b x hx⟩
+
+example :
+    let inner : Var := { attrs := [], kind := 's', vals := ["it's".toList] }
+    let outer : Var := { attrs := ['x'], kind := 's', vals := ["outer".toList] }
+    let w : Var := { attrs := [], kind := 's', vals := ["END".toList] }
+    visible [[("v".toList, inner)], [("v".toList, outer), ("w".toList, w)]] =
+      [("v".toList, inner), ("w".toList, w)] := by decide
 
 end BrushVerif.C13
